@@ -11,6 +11,7 @@ import (
 	"math/rand/v2"
 	"net/netip"
 	"regexp"
+	"sort"
 	"strconv"
 	"strings"
 )
@@ -141,6 +142,115 @@ func (p *RProg) Text() string {
 	return "routing {\n" + p.RulesText() + "    fallback: " + p.Fallback.Text() + "\n}\n"
 }
 
+// ---- geodata model ---------------------------------------------------------
+
+type GeoSiteItem struct {
+	Kind  string // full | suffix | keyword | regex
+	Val   string
+	Attrs []string
+}
+
+// GeoModel is what the monitor wrote into the .dat files: file -> code -> items.
+type GeoModel struct {
+	Site map[string]map[string][]GeoSiteItem // e.g. "geosite.dat" -> "cn" -> items
+	IP   map[string]map[string][]string      // e.g. "geoip.dat" -> "private" -> prefixes
+}
+
+// Geo is consulted by the reference when a param has key geosite/geoip/ext.
+var Geo *GeoModel
+
+func lookupFold[T any](m map[string]T, k string) (T, bool) {
+	for kk, v := range m {
+		if strings.EqualFold(kk, k) {
+			return v, true
+		}
+	}
+	var z T
+	return z, false
+}
+
+// geoExpand returns the plain params a geodata reference stands for.
+func geoExpand(fn string, p RParam) ([]RParam, bool) {
+	if Geo == nil {
+		return nil, false
+	}
+	file, code := "", p.Val
+	switch p.Key {
+	case "geosite":
+		file = "geosite.dat"
+	case "geoip":
+		file = "geoip.dat"
+	case "ext":
+		f, c, ok := strings.Cut(p.Val, ":")
+		if !ok {
+			return nil, false
+		}
+		file, code = f, c
+		if !strings.HasSuffix(file, ".dat") {
+			file += ".dat"
+		}
+	default:
+		return nil, false
+	}
+	isSite := p.Key == "geosite" || (p.Key == "ext" && fn == "domain")
+	var out []RParam
+	if isSite {
+		code, attr, _ := strings.Cut(code, "@")
+		codes, ok := Geo.Site[file]
+		if !ok {
+			return nil, true
+		}
+		items, _ := lookupFold(codes, code)
+		for _, it := range items {
+			if attr != "" {
+				hit := false
+				for _, a := range it.Attrs {
+					if strings.EqualFold(a, attr) {
+						hit = true
+					}
+				}
+				if !hit {
+					continue
+				}
+			}
+			out = append(out, RParam{it.Kind, it.Val})
+		}
+		return out, true
+	}
+	codes, ok := Geo.IP[file]
+	if !ok {
+		return nil, true
+	}
+	pfs, _ := lookupFold(codes, code)
+	for _, pf := range pfs {
+		out = append(out, RParam{"", pf})
+	}
+	return out, true
+}
+
+// HasEmptyExpansion reports whether some condition's values expand to nothing
+// (geodata code without members / attribute filter matching nothing). The
+// config language does not support empty parameter lists, so such a program
+// must be rejected rather than compiled.
+func (p *RProg) HasEmptyExpansion() bool {
+	for _, r := range p.Rules {
+		for _, c := range r.Conds {
+			n := 0
+			for _, pa := range c.Params {
+				if ex, ok := geoExpand(c.Func, pa); ok {
+					n += len(ex)
+				} else {
+					n++
+				}
+			}
+			if n == 0 {
+				return true
+			}
+		}
+	}
+	return false
+}
+
 // ---- reference semantics ------------------------------------------------
 
 func to16(a netip.Addr) [16]byte {
@@ -229,6 +339,15 @@ func pname16(s string) [16]byte {
 }
 
 func condValueHit(c RCond, p RParam, k RPkt) bool {
+	if p.Key == "geosite" || p.Key == "geoip" || p.Key == "ext" {
+		ps, _ := geoExpand(c.Func, p)
+		for _, q := range ps {
+			if condValueHit(c, q, k) {
+				return true
+			}
+		}
+		return false
+	}
 	switch c.Func {
 	case "domain":
 		if k.Domain == "" {
@@ -341,27 +460,28 @@ type RGen struct {
 	// outbound of the previous rule (the optimiser's merge precondition).
 	NeighbourBias float64
 	// NoDomain/NoRegex etc. let callers trim for particular targets.
-	NoRegex   bool
-	MaxRules  int
-	ExactRules int // if >0, generate exactly this many rules
-	WideOr    bool // allow very wide OR chains (>32 values)
-	V6Slash0  bool // include ::/0 in the prefix pool
+	NoRegex    bool
+	MaxRules   int
+	ExactRules int  // if >0, generate exactly this many rules
+	WideOr     bool // allow very wide OR chains (>32 values)
+	V6Slash0   bool // include ::/0 in the prefix pool
 	KernelSafe bool // restrict to what both kernel and userspace can decide identically
+	GeoRefs    bool // emit geosite:/geoip:/ext: references (requires Geo model + files)
 }
 
 var (
-	PoolPrefix4 = []string{"0.0.0.0/0", "10.0.0.0/8", "10.1.0.0/16", "10.1.2.3", "10.1.2.2/31", "192.168.0.0/24", "10.1.2.3/8", "128.0.0.0/1", "255.255.255.255"}
-	PoolPrefix6 = []string{"::/1", "fd00::/8", "fd00::1", "2001:db8::/32", "2001:db8::2/127", "2001:db8:0:1::/64", "8000::/1", "ffff:ffff:ffff:ffff:ffff:ffff:ffff:ffff"}
+	PoolPrefix4      = []string{"0.0.0.0/0", "10.0.0.0/8", "10.1.0.0/16", "10.1.2.3", "10.1.2.2/31", "192.168.0.0/24", "10.1.2.3/8", "128.0.0.0/1", "255.255.255.255"}
+	PoolPrefix6      = []string{"::/1", "fd00::/8", "fd00::1", "2001:db8::/32", "2001:db8::2/127", "2001:db8:0:1::/64", "8000::/1", "ffff:ffff:ffff:ffff:ffff:ffff:ffff:ffff"}
 	PoolPrefixMapped = []string{"::ffff:10.1.0.0/112", "::ffff:0:0/96"}
-	PoolPorts   = []string{"53", "80", "443", "1-1023", "80-443", "443-8443", "0", "65535", "1024-65535", "53-53"}
-	PoolMacs    = []string{"02:42:ac:11:00:02", "02:42:ac:11:00:03", "ff:ff:ff:ff:ff:ff", "00:00:00:00:00:01"}
-	PoolPnames  = []string{"curl", "mosdns", "NetworkManager", "sixteen-byte-nam", "sixteen-byte-name-longer", "sixteen-byte-nam2", "c"}
-	PoolDscp    = []string{"0", "4", "0x4", "8", "63", "010"}
-	PoolDomFull = []string{"example.com", "www.example.com", "a.b.example.com", "example.org", "ex-ample_1.com", "com"}
-	PoolDomSuffix = []string{"example.com", ".example.com", "com", "b.example.com", "org", "ample.com", "1.com"}
-	PoolDomKeyword = []string{"example", "ple.c", "www", "-", "a.b", "google"}
-	PoolDomRegex = []string{`^www\.`, `\.com$`, `^[a-z]+\.example\.(com|org)$`, `ex.*le`, `^$`, `[0-9]`}
-	PoolMarks   = []string{"0", "1", "0x800", "0xffffffff", "255", "010", "4294967295", "0x80000000"}
+	PoolPorts        = []string{"53", "80", "443", "1-1023", "80-443", "443-8443", "0", "65535", "1024-65535", "53-53"}
+	PoolMacs         = []string{"02:42:ac:11:00:02", "02:42:ac:11:00:03", "ff:ff:ff:ff:ff:ff", "00:00:00:00:00:01"}
+	PoolPnames       = []string{"curl", "mosdns", "NetworkManager", "sixteen-byte-nam", "sixteen-byte-name-longer", "sixteen-byte-nam2", "c"}
+	PoolDscp         = []string{"0", "4", "0x4", "8", "63", "010"}
+	PoolDomFull      = []string{"example.com", "www.example.com", "a.b.example.com", "example.org", "ex-ample_1.com", "com"}
+	PoolDomSuffix    = []string{"example.com", ".example.com", "com", "b.example.com", "org", "ample.com", "1.com"}
+	PoolDomKeyword   = []string{"example", "ple.c", "www", "-", "a.b", "google"}
+	PoolDomRegex     = []string{`^www\.`, `\.com$`, `^[a-z]+\.example\.(com|org)$`, `ex.*le`, `^$`, `[0-9]`}
+	PoolMarks        = []string{"0", "1", "0x800", "0xffffffff", "255", "010", "4294967295", "0x80000000"}
 )
 
 var allFuncs = []string{"domain", "dip", "sip", "dport", "sport", "l4proto", "ipversion", "mac", "pname", "dscp", "ip", "port"}
@@ -391,6 +511,19 @@ func (g *RGen) genCond(fn string) RCond {
 	switch fn {
 	case "domain":
 		for i := 0; i < n; i++ {
+			if g.GeoRefs && g.R.IntN(4) == 0 {
+				c.Params = append(c.Params, g.pickGeoSite())
+				continue
+			}
+			if len(c.Params) > 0 && g.R.IntN(3) == 0 {
+				// same value under a different key (dedup/sort must keep both)
+				prev := c.Params[g.R.IntN(len(c.Params))]
+				if prev.Key != "geosite" && prev.Key != "ext" && prev.Key != "regex" {
+					keys := []string{"", "suffix", "full", "keyword", "contains", "domain"}
+					c.Params = append(c.Params, RParam{keys[g.R.IntN(len(keys))], prev.Val})
+					continue
+				}
+			}
 			switch g.R.IntN(7) {
 			case 0:
 				c.Params = append(c.Params, RParam{"", g.pick(PoolDomSuffix)})
@@ -415,6 +548,10 @@ func (g *RGen) genCond(fn string) RCond {
 	case "dip", "sip", "ip":
 		pool := g.prefixPool()
 		for i := 0; i < n; i++ {
+			if g.GeoRefs && g.R.IntN(4) == 0 {
+				c.Params = append(c.Params, g.pickGeoIP(fn))
+				continue
+			}
 			c.Params = append(c.Params, RParam{"", g.pick(pool)})
 		}
 	case "dport", "sport", "port":
@@ -445,6 +582,52 @@ func (g *RGen) genCond(fn string) RCond {
 		}
 	}
 	return c
+}
+
+func sortedKeys[T any](m map[string]T) []string {
+	var l []string
+	for k := range m {
+		l = append(l, k)
+	}
+	sort.Strings(l)
+	return l
+}
+
+func (g *RGen) pickGeoSite() RParam {
+	files := sortedKeys(Geo.Site)
+	f := files[g.R.IntN(len(files))]
+	codes := sortedKeys(Geo.Site[f])
+	code := codes[g.R.IntN(len(codes))]
+	if g.R.IntN(4) == 0 {
+		code = strings.ToUpper(code)
+	}
+	if g.R.IntN(4) == 0 {
+		code += "@" + []string{"ads", "cn", "ADS"}[g.R.IntN(3)]
+	}
+	if f == "geosite.dat" {
+		return RParam{"geosite", code}
+	}
+	if g.R.IntN(2) == 0 {
+		f = strings.TrimSuffix(f, ".dat")
+	}
+	return RParam{"ext", f + ":" + code}
+}
+
+func (g *RGen) pickGeoIP(fn string) RParam {
+	files := sortedKeys(Geo.IP)
+	f := files[g.R.IntN(len(files))]
+	if fn == "sip" {
+		f = "geoip.dat" // ext: is not supported for sip()
+	}
+	codes := sortedKeys(Geo.IP[f])
+	code := codes[g.R.IntN(len(codes))]
+	if g.R.IntN(4) == 0 {
+		code = strings.ToUpper(code)
+	}
+	if f == "geoip.dat" {
+		return RParam{"geoip", code}
+	}
+	return RParam{"ext", f + ":" + code}
 }
 
 func (g *RGen) genOut(allowMustRules bool) ROut {
@@ -587,7 +770,15 @@ func ProbePackets(p *RProg, r *rand.Rand, max int) []RPkt {
 	macs := [][6]byte{{}, {2, 0x42, 0xac, 0x11, 0, 2}}
 	dscps := []uint8{0, 4}
 	cond := func(c RCond) {
+		var params []RParam
 		for _, pa := range c.Params {
+			if ex, ok := geoExpand(c.Func, pa); ok {
+				params = append(params, ex...)
+			} else {
+				params = append(params, pa)
+			}
+		}
+		for _, pa := range params {
 			switch c.Func {
 			case "dip", "sip", "ip":
 				for _, a := range AddrsAround(pa.Val) {
